@@ -190,8 +190,8 @@ MIRSYM("delete_extra_trees_step", ["C15", "C01", "C10"],
        "forest = the shape family (root 0) + one bucket tree (id 10); already-deleted item set symbolic; target 0..=3",
        _lazy("e2_tree", "delete_trees_obligation"), site="Writer::delete_extra_trees/delete_tree")
 
-MIRSYM("make_tree_step", ["C01", "C15", "C20"],
-       "make_tree_in_file over every item set S: returns a subtree reaching exactly S, each once, node ids fresh and distinct, node count exact, every bucket within split_after; whatever D::side answers (all-one-side / duplicate / degenerate geometry included) and for zero or non-zero normals; randomly_split_children partitions its input",
+MIRSYM("make_tree_step", ["C01", "C15", "C20", "C04"],
+       "make_tree_in_file over every item set S: returns a subtree reaching exactly S, each once, node ids fresh and distinct, node count exact, every bucket within split_after, [C04] below every stored non-zero normal each item on the side D::side answered against that very normal; whatever D::side answers (all-one-side / duplicate / degenerate geometry included) and for zero or non-zero normals; randomly_split_children partitions its input",
        "1 <= |S| <= 2 (thorough 3) over a 16-id universe, split_after 1..=3, all side decisions symbolic, used node ids {0,2}; fair-RNG assumption for the random fallback (both sides non-empty)",
        _lazy("e2_tree", "make_tree_obligation"), site="Writer::make_tree_in_file")
 
